@@ -191,34 +191,13 @@ UNITS['U20k'] = dict(
     assumptions=[], not_covered=['narrowing casts (`as u8` ...) and Val -> integer casts (panic arms)', 'i64 -> f64 rounding for |v| > 2^53 is inherent to the documented degrade'])
 
 UNITS['U02b'] = dict(
-    kind='kani', crate='kani/U02b', needs_lock=True, timeout_s=1500, mem_gb=16, jobs=3,
-    title='BOUNDED fallback for U02: real ColumnBuffer::{null,push_ints,push_nulls,push_present,init_present} over <=2 operations of <=9 rows against a row model',
-    harnesses=[dict(name='proofs::null_prefix_then_op', bounded='<= 9 NULL rows, then 1 op of <= 3 rows, unwind 11', unwind=11, clause='row count, NULL exactly where missing, integer values kept, no stray bits', fn='ColumnBuffer ops'),
-               dict(name='proofs::two_ops', bounded='op of <= 9 rows then op of <= 2 rows, unwind 11', unwind=11, clause='row count, NULL exactly where missing, integer values kept, no stray bits', fn='ColumnBuffer ops'),
-               dict(name='proofs::vx_canary', expect_fail=True)],
+    kind='kani', crate='kani/U02b', needs_lock=True, timeout_s=1200, mem_gb=12, jobs=4,
+    title='BOUNDED fallback for U02: real ColumnBuffer::{null,push_ints,push_nulls,push_present,init_present}: first operation of 3 / 8 / 9 rows, second operation of <= 2 rows, against a row model',
+    harnesses=[dict(name='proofs::first_op_%d_rows' % n, bounded='first op exactly %d rows (values and null map symbolic), second op <= 2 rows, unwind 12' % n, unwind=12, clause='row count, NULL exactly where missing, integer values kept, no stray bits', fn='ColumnBuffer ops') for n in (3, 8, 9)]
+    + [dict(name='proofs::null_prefix_then_op', bounded='3 or 8 NULL rows, then 1 op of <= 2 rows, unwind 12', unwind=12, clause='row count, NULL exactly where missing, integer values kept, no stray bits', fn='ColumnBuffer ops'),
+       dict(name='proofs::vx_canary', expect_fail=True)],
     assumptions=['shims: StringColBuffer and RawVal reduced to stand-ins (only stored, never inspected by the null-map code)'],
     not_covered=['push_floats / push_strings / finalize'])
-
-UNITS['U14k'] = dict(
-    kind='kani', crate='kani/U14', timeout_s=900, mem_gb=10, jobs=1,
-    title='BOUNDED (payload <= 2 bytes): disk_store/file_writer.rs compiled as is; VersionedChecksummedBlobWriter::{store,load} over an in-memory inner writer, digest replaced by a stand-in crate',
-    path_includes=['src/disk_store/file_writer.rs'],
-    harnesses=[dict(name='proofs::store_load_roundtrip', bounded='payload of 2 bytes, unwind 35', unwind=35, clause='load(store(d)) == d', fn='VersionedChecksummedBlobWriter::store/load'),
-               dict(name='proofs::load_len47_rejected', bounded='every 47-byte file, unwind 35', unwind=35, clause='shorter than the header ==> Err', fn='VersionedChecksummedBlobWriter::load'),
-               dict(name='proofs::load_len49', bounded='every 49-byte file, unwind 35', unwind=35, clause='Ok(p) ==> version 0, length field == |p|, payload bytes == p, file stays accepted', fn='VersionedChecksummedBlobWriter::load'),
-               dict(name='proofs::vx_canary', expect_fail=True)],
-    assumptions=['A-sha: the sha2 crate is replaced by a stand-in crate with the same API (kani/U14/sha2_shim); no property of SHA-256 is used or proved',
-                 'format! on error paths stubbed (message text irrelevant)'],
-    not_covered=['FileBlobWriter (file system)', 'Cap\'n Proto encode/decode of segments and catalogue (A-capnp)'])
-
-UNITS['U21k'] = dict(
-    kind='kani', crate='kani/U21', timeout_s=900, mem_gb=20, jobs=2,
-    title='BOUNDED (literals <= 4 chars): parser.rs get_limit / get_offset numeric-literal conversion (expression slices)',
-    harnesses=[dict(name='proofs::limit_never_panics', bounded='literal <= 4 chars over 0-9 . e -, unwind 6', unwind=6, extra=['-Z', 'stubbing'], clause='Ok iff unsigned integer literal; otherwise an error value; no panic', fn='parser::get_limit[slice]'),
-               dict(name='proofs::offset_never_panics', bounded='literal <= 4 chars over 0-9 . e -, unwind 6', unwind=6, extra=['-Z', 'stubbing'], clause='Ok iff unsigned integer literal; otherwise an error value; no panic', fn='parser::get_offset[slice]'),
-               dict(name='proofs::vx_canary', expect_fail=True)],
-    assumptions=['slice: only the conversion arm; the sqlparser AST match around it is dropped', 'literals longer than 4 characters (e.g. beyond u64) are not generated: parse::<u64> overflow path covered only by reading'],
-    not_covered=['sqlparser', 'convert_to_native_expr', 'get_raw_val'])
 
 PROPS = {
     'C12': dict(level='other', units=['U13k', 'U21k'],
